@@ -61,6 +61,7 @@ type c18case struct {
 	ctx     string // entry char (- h C D) then one char per wait (. c x d)
 	trials  int    // > 1: the observation must be the same in every trial
 	elapsed bool   // emit a retry-elapsed line instead (no-jitter policies only)
+	via     int    // 0 RetryWithCtx, 1 RetrySome, 2 Retry (the wrappers: live context, ctx must be "-")
 }
 
 func (c c18case) request() string {
@@ -100,7 +101,26 @@ func joinOr(xs []string) string {
 }
 
 // c18run executes one case once against the real RetryWithCtx; returns the observation and the elapsed time.
+// Cases with a 'd' event use a real deadline a little ahead; if the machine is so loaded that the deadline passes
+// before the scripted call is reached, the case is repeated with a longer one (the script, not the load, must decide).
 func c18run(c c18case) (string, time.Duration) {
+	if !strings.ContainsRune(c.ctx[1:], 'd') || strings.ContainsRune(c.ctx[1:], 'x') {
+		obs, el, _ := c18runOnce(c, 0)
+		return obs, el
+	}
+	var obs string
+	var el time.Duration
+	for _, dl := range []time.Duration{40 * time.Millisecond, 400 * time.Millisecond, 3 * time.Second} {
+		var overrun bool
+		obs, el, overrun = c18runOnce(c, dl)
+		if !overrun {
+			break
+		}
+	}
+	return obs, el
+}
+
+func c18runOnce(c c18case, nearIn time.Duration) (string, time.Duration, bool) {
 	const guard = 10 * time.Second
 	evs := c.ctx[1:]
 	ops := make([]*vErr, len(c.outs)+3)
@@ -123,7 +143,7 @@ func c18run(c c18case) (string, time.Duration) {
 		}
 		ctx, endCtx = v, v.end
 	case near:
-		nearDeadline = time.Now().Add(40 * time.Millisecond)
+		nearDeadline = time.Now().Add(nearIn)
 		cc, cancel := context.WithDeadline(context.Background(), nearDeadline)
 		ctx, cancelAll = cc, cancel
 		endCtx = func(error) { cancel() }
@@ -193,23 +213,32 @@ func c18run(c c18case) (string, time.Duration) {
 			r.el = time.Since(t0)
 			ch <- r
 		}()
-		r.err = c.cfg.RetryWithCtx(ctx, c.retries, f)
+		switch c.via {
+		case 1:
+			r.err = c.cfg.RetrySome(c.retries, func() (bool, error) { return f(ctx) })
+		case 2:
+			r.err = c.cfg.Retry(c.retries, func() error { _, e := f(ctx); return e })
+		default:
+			r.err = c.cfg.RetryWithCtx(ctx, c.retries, f)
+		}
 	}()
 	var r result
 	select {
 	case r = <-ch:
 	case <-time.After(guard):
-		return "timeout", guard
+		return "timeout", guard, false
 	}
+	// the run ended before the call that was scripted to outlast the deadline, yet the deadline has passed
+	overrun := near && calls < strings.IndexByte(evs, 'd')+1 && time.Now().After(nearDeadline)
 	if r.panicked != nil {
-		return "panic", r.el
+		return "panic", r.el, overrun
 	}
 	if r.err == nil {
-		return fmt.Sprintf("calls=%d result=ok", calls), r.el
+		return fmt.Sprintf("calls=%d result=ok", calls), r.el, overrun
 	}
 	var fe *FError
 	if !errors.As(r.err, &fe) {
-		return fmt.Sprintf("calls=%d result=err-not-FError", calls), r.el
+		return fmt.Sprintf("calls=%d result=err-not-FError", calls), r.el, overrun
 	}
 	targets := []error{ErrRetriesExceeded, context.Canceled, context.DeadlineExceeded, ErrWaitExceedsDeadline}
 	names := []string{"R", "C", "D", "W"}
@@ -232,7 +261,7 @@ func c18run(c c18case) (string, time.Duration) {
 		others = append(others, c18name(e, ops))
 	}
 	return fmt.Sprintf("calls=%d result=err main=%s is=%s kept=%d others=%s attempts=%d",
-		calls, c18name(fe.MainErr, ops), joinOr(is), len(fe.Others), joinOr(others), fe.Attempts), r.el
+		calls, c18name(fe.MainErr, ops), joinOr(is), len(fe.Others), joinOr(others), fe.Attempts), r.el, overrun
 }
 
 func c18nextWait(ebo ExpBackOff, n int) (s string) {
@@ -344,6 +373,17 @@ func TestVerifC18(t *testing.T) {
 					entry = "h"
 				}
 				cases = append(cases, c18case{cfg: p, retries: r, outs: s, ctx: entry, trials: 1})
+			}
+		}
+	}
+	// 2a'. the exported wrappers RetrySome and Retry (Retry treats every error as recoverable: no 'f' outcomes)
+	for _, s := range c18sequences(4) {
+		for _, r := range retriesSet {
+			p := pick()
+			p.KeepErrs = keeps[rng.intn(len(keeps))]
+			cases = append(cases, c18case{cfg: p, retries: r, outs: s, ctx: "-", trials: 1, via: 1})
+			if !strings.ContainsRune(s, 'f') {
+				cases = append(cases, c18case{cfg: p, retries: r, outs: s, ctx: "-", trials: 1, via: 2})
 			}
 		}
 	}
